@@ -58,6 +58,13 @@ class Uncommitted(Monitor):
             mech = MECH.get(opname, f'other-{opname}')
             if j is not None and opname in ('job_complete', 'unschedule', 'deactivate_instance') and (j['attempt_id'] is not None or 'state' in cause and j['state'] in ('Running', 'Creating')):
                 mech = 'scheduler-runs-uncommitted-job'
+            if mech == 'scheduler-runs-uncommitted-job' and j is not None and j['job_group_id'] != 0:
+                grp = v.groups.get((k[0], j['job_group_id']))
+                gupd = v.updates.get((k[0], grp['update_id'])) if grp else None
+                if grp is not None and not (gupd and gupd['committed']):
+                    # the recorded finding is about Ready jobs placed in groups that are already running; a group created by an open
+                    # update is not visited by the unchanged scheduler (it is 'complete' until the commit)
+                    mech = 'scheduler-runs-job-in-group-of-uncommitted-update'
             self.r.violation(f'uncommitted-job-changed/{mech}', f'job {k} of an uncommitted update changed ({cause}) during {opname}', {'job': list(k), 'cause': cause, 'op': opname})
         has_uncommitted_jobs = {}
         for k, j in v.jobs.items():
